@@ -114,10 +114,25 @@ Definition taint_kind (c : N) : bool :=
 (* a rejected application carrying namespace quota tags was placed in an existing unmanaged queue: AddApplication
    applies the tags to the queue (SetMaxRunningApps / SetResources) before the gang checks reject the application;
    the only trace is the changed queue limits *)
+(* the rejected application may also leave behind the dynamic queue(s) the placement rule created for it (empty,
+   unmanaged, no usage): the post-state without them is compared *)
+Definition without_new_dynamic (pre post : ostate) : option ostate :=
+  let known (q : oqueue) := existsb (fun p => q_id p =? q_id q) (s_queues pre) in
+  let newq := filter (fun q => negb (known q)) (s_queues post) in
+  if forallb (fun q => negb (q_managed q) && forallb (fun kv => Z.eqb (snd kv) 0) (q_alloc q) &&
+                       forallb (fun kv => Z.eqb (snd kv) 0) (q_pending q) &&
+                       match q_apps q with [] => true | _ => false end) newq
+  then Some (mkOS (s_nodes post) (s_apps post) (filter known (s_queues post)) (s_total post) (s_nallocs post) (s_nph post)
+                  (s_nres post) (s_foreign post) (s_completed post) (s_rejected post) (s_ugm post))
+  else None.
 Definition window_rejected_limits (pre : ostate) (st : ostep) : bool :=
   match st_op st with
   | OpAppAdd _ _ _ _ _ phask _ tagmaxapps tagmax =>
-      negb (is_nil phask) && (negb (tagmaxapps =? 0) || negb (is_nil tagmax)) && acct_eqb_gen true false false pre (st_obs st)
+      negb (is_nil phask) && (negb (tagmaxapps =? 0) || negb (is_nil tagmax)) &&
+      match without_new_dynamic pre (st_obs st) with
+      | Some post' => acct_eqb_gen true false false pre post'
+      | None => false
+      end
   | _ => false
   end.
 
